@@ -59,10 +59,11 @@ structure Defects where
   unboundedFirstFrame : Bool
 deriving Repr, DecidableEq
 
-/-- What /repo does. Three deviations were confirmed on the real code by this check (corpus/C14) and fixed in
-    /repo (e10cc1c `jsonNullPanics`, 8e31124 `emptyKeyPanics`, e1bf202 `dateRangePanics`); the switches stay so
-    that the witnesses `C14_breaks_*` and the regression replays describe what a revert brings back. -/
-def Defects.asImplemented : Defects := { jsonNullPanics := false, emptyKeyPanics := false, dateRangePanics := false, unboundedFirstFrame := true }
+/-- What /repo does. Four deviations were confirmed on the real code by this check (corpus/C14) and fixed in
+    /repo (e10cc1c `jsonNullPanics`, 8e31124 `emptyKeyPanics`, e1bf202 `dateRangePanics`, 10c32e2
+    `unboundedFirstFrame`); the switches stay so that the witnesses `C14_breaks_*` and the regression replays
+    describe what a revert brings back. -/
+def Defects.asImplemented : Defects := { jsonNullPanics := false, emptyKeyPanics := false, dateRangePanics := false, unboundedFirstFrame := false }
 def Defects.none : Defects := { jsonNullPanics := false, emptyKeyPanics := false, dateRangePanics := false, unboundedFirstFrame := false }
 /-- the code before the two fixes -/
 def Defects.beforeFixes : Defects := { jsonNullPanics := true, emptyKeyPanics := true, dateRangePanics := true, unboundedFirstFrame := true }
